@@ -82,7 +82,7 @@ theorem within_finish {E : Name → Path → Prop} {s : St} (h : Within E s) (t 
       · exact h.defs t p hd
       · exact h.rcd t p hd
     | missing => exact within_erase h t
-    | crash => exact within_crashed h
+    | crash => exact within_erase h t
 
 theorem within_runTask {E : Name → Path → Prop} {s : St} (h : Within E s) (t : Name) (ok always : Bool)
     (ws : List (Path × Nat × Nat)) (res : Option Res) : Within E (runTask true s t ok always ws res) := by
